@@ -19,6 +19,7 @@ func main() {
 	statsFile := flag.String("stats", "", "stats json output")
 	tmp := flag.String("tmp", "", "scratch directory")
 	corpus := flag.String("corpus", "", "corpus directory")
+	flag.StringVar(&serverBinary, "server", "", "gofakes3 command built from /repo/cmd/gofakes3")
 	kinds := flag.String("kinds", "", "comma-separated backend kinds (default all)")
 	flag.Parse()
 	if flag.NArg() < 1 {
